@@ -548,11 +548,18 @@ def check(prop, tier, keep=False):
                 p2 = parse_log(open(pb_log, errors="replace").read(), [h])[h["full_name"]]
                 tests = [pb["test"] for pb in p2.get("playback", []) if pb["kind"] != "cover"]
                 if not tests:
-                    r["verdict"] = "inconclusive"
-                    inconclusive.append(f"{h['name']}: FAILED but no concrete playback test was produced (see {pb_log})")
-                    continue
+                    # A harness without symbolic inputs (a concretely enumerated scenario family) has no
+                    # values to play back: it is simply executed natively. If it needs values after all,
+                    # the native run stops inside Kani's playback library, which is not a reproduction.
+                    tests = [f"/// Test generated for harness `{h['full_name']}` (no symbolic inputs)\n#[test]\n"
+                             f"fn kani_concrete_playback_{h['name']}_noinputs() {{\n"
+                             f"    let concrete_vals: Vec<Vec<u8>> = vec![];\n"
+                             f"    kani::concrete_playback_run(concrete_vals, {h['name']});\n}}"]
                 nat_log = os.path.join(logs_dir, f"{prop}-{tier}-{h['name']}-native.log")
                 failed, passed, panics, tail = playback_native(twin_dir, flavour, package, h, tests, nat_log)
+                if failed and any("concrete_playback.rs" in a or "det vals" in b for a, b in panics) and len(panics) <= len(failed):
+                    failed = []
+                    tail = "native run stopped inside Kani's playback library (harness needs symbolic values)"
                 if failed:
                     how = f"{len(failed)} of {len(failed) + len(passed)} generated tests panic natively (dev profile): " + "; ".join(
                         (a + " " + b).strip()[:200] for a, b in panics[:3])
